@@ -30,9 +30,126 @@ var FamilyNames = []string{
 	"self", "wide-kids", "wide-filters", "deep-array", "deep-dict", "deep-content",
 	"acroform-loop", "xobject-loop", "type3-loop", "action-chain", "pattern-loop",
 	"parent-loop", "contents-array", "colorspace-chain", "huge-offsets",
+	"nest-function", "nest-action", "nest-colorspace", "presteps-chain",
+}
+
+// wiringFamily builds a large wiring of one of the model's walkers and
+// renders it with Materialise: name "wire:<walker>[:<structure>]:<shape>",
+// shapes ladder (two nodes per level, each pointing to both nodes of the next
+// level; leaves at the bottom), ladderbad (the bottom points to a number
+// without object: for strict decoders nothing on the way is ever cached),
+// laddercyc (the bottom points back to the top), chain, chaincyc, chainbad.
+func (fam *Family) wiringFamily() ([]byte, error) {
+	parts := strings.Split(fam.Name, ":")
+	if len(parts) < 3 {
+		return nil, fmt.Errorf("bad family %q", fam.Name)
+	}
+	walker, inst, shape := parts[1], "", parts[len(parts)-1]
+	if len(parts) == 4 {
+		inst = parts[2]
+	}
+	inner, leaf := "", "leaf"
+	switch walker {
+	case "decode":
+		inner = "perm"
+		if di := decodeInst(inst); di != nil {
+			inner = di.Sem
+		} else {
+			return nil, fmt.Errorf("bad family %q", fam.Name)
+		}
+	case "fields":
+		inner, leaf = "field", "widget"
+	case "parents":
+		inner, leaf = "field", "field"
+	case "objwalk":
+		inner = "dict"
+	case "pages":
+		inner, leaf = "Pages", "Page"
+	case "nametree":
+		inner = "inner"
+	default:
+		return nil, fmt.Errorf("bad family %q", fam.Name)
+	}
+	L := max(fam.Size, 1)
+	w := &Wiring{Walker: walker, Inst: inst, Start: 1}
+	add := func(kind string, a, b int) {
+		w.Kind = append(w.Kind, kind)
+		w.A = append(w.A, a)
+		w.B = append(w.B, b)
+	}
+	switch shape {
+	case "ladder", "ladderbad", "laddercyc":
+		w.N = 2 * L
+		for lv := 0; lv < L; lv++ {
+			for j := 0; j < 2; j++ {
+				switch {
+				case lv < L-1:
+					add(inner, 2*(lv+1)+1, 2*(lv+1)+2)
+				case shape == "ladder":
+					add(leaf, 0, 0)
+				case shape == "ladderbad":
+					add(inner, w.N+1, 0)
+				default:
+					add(inner, 1, 2)
+				}
+			}
+		}
+	case "chain", "chaincyc", "chainbad":
+		w.N = L
+		for i := 1; i <= L; i++ {
+			switch {
+			case i < L:
+				add(inner, i+1, 0)
+			case shape == "chain":
+				add(leaf, 0, 0)
+			case shape == "chainbad":
+				add(inner, L+1, 0) // a number without object: every decoder on the chain fails
+			default:
+				add(inner, 1, 0)
+			}
+		}
+	default:
+		return nil, fmt.Errorf("bad family %q", fam.Name)
+	}
+	variant := 0
+	if fam.XS {
+		variant |= 1
+	}
+	if fam.Cyc {
+		variant |= 2
+	}
+	data, ok := Materialise(w, variant)
+	if !ok {
+		return nil, fmt.Errorf("family %q cannot be rendered", fam.Name)
+	}
+	return data, nil
+}
+
+// WiringFamilies lists the large wirings the exploration adds.
+func WiringFamilies() []string {
+	var out []string
+	shapes := []string{"ladder", "ladderbad", "laddercyc", "chain", "chaincyc", "chainbad"}
+	for _, di := range DecodeInsts {
+		for _, sh := range shapes {
+			if di.OneSlot && strings.HasPrefix(sh, "ladder") {
+				continue
+			}
+			out = append(out, "wire:decode:"+di.Name+":"+sh)
+		}
+	}
+	for _, wk := range []string{"fields", "objwalk"} {
+		for _, sh := range shapes {
+			out = append(out, "wire:"+wk+":"+sh)
+		}
+	}
+	out = append(out, "wire:parents:chain", "wire:parents:chaincyc", "wire:nametree:num:ladder", "wire:nametree:num:chain", "wire:nametree:num:chaincyc")
+	return out
 }
 
 func (fam *Family) build() ([]byte, error) {
+	if strings.HasPrefix(fam.Name, "wire:") {
+		return fam.wiringFamily()
+	}
 	n := fam.Size
 	if n < 1 {
 		n = 1
@@ -252,6 +369,51 @@ func (fam *Family) build() ([]byte, error) {
 			f.obj(base+i, fmt.Sprintf("[/Separation /Ink%d %s << /FunctionType 2 /Domain [0 1] /C0 [0] /C1 [1] /N 1 >>]", i, alt), true)
 		}
 		pageExtra = fmt.Sprintf("/CSX %s ", ref(base))
+	case "nest-function", "nest-action", "nest-colorspace":
+		// direct nesting inside every object times a chain of references:
+		// the scanner allows 256 levels per object, Decode 256 references
+		depth := 200
+		if n < depth {
+			depth = n
+		}
+		links := min(n, 300)
+		for i := 0; i < links; i++ {
+			end := "<< /FunctionType 2 /Domain [0 1] /C0 [0] /C1 [1] /N 1 >>"
+			if fam.Name == "nest-action" {
+				end = "<< /S /Named /N /NextPage >>"
+			} else if fam.Name == "nest-colorspace" {
+				end = "/DeviceGray"
+			}
+			if t := last(i); t != 0 {
+				end = ref(t)
+			}
+			var open, cl string
+			switch fam.Name {
+			case "nest-function":
+				open, cl = "<< /FunctionType 3 /Domain [0 1] /Bounds [] /Encode [0 1] /Functions [", "] >>"
+			case "nest-action":
+				open, cl = "<< /S /URI /URI (u) /Next ", " >>"
+			default:
+				open, cl = "[/Pattern ", "]"
+			}
+			f.obj(base+i, strings.Repeat(open, depth)+end+strings.Repeat(cl, depth), false)
+		}
+		switch fam.Name {
+		case "nest-function":
+			pageExtra = fmt.Sprintf("/CSX [/Separation /Ink /DeviceGray %s] ", ref(base))
+		case "nest-action":
+			catExtra = fmt.Sprintf("/OpenAction %s ", ref(base))
+			pageExtra = fmt.Sprintf("/AA << /O %s >> ", ref(base))
+		}
+	case "presteps-chain":
+		for i := 0; i < n; i++ {
+			next := ""
+			if t := last(i); t != 0 {
+				next = "/Next " + ref(t) + " "
+			}
+			f.obj(base+i, fmt.Sprintf("<< /Type /NavNode %s/Dur 1 >>", next), true)
+		}
+		pageExtra = fmt.Sprintf("/PresSteps %s ", ref(base))
 	case "chain-prev", "chain-objstm":
 		return fam.buildSections(n)
 	case "huge-offsets":
@@ -267,8 +429,10 @@ func (fam *Family) build() ([]byte, error) {
 		res = fmt.Sprintf("<< /Font << /F0 %s >> >>", ref(base))
 	case "pattern-loop":
 		res = fmt.Sprintf("<< /Pattern << /P0 %s >> >>", ref(base))
-	case "colorspace-chain":
+	case "colorspace-chain", "nest-colorspace":
 		res = fmt.Sprintf("<< /ColorSpace << /CS0 %s >> >>", ref(base))
+	case "nest-function":
+		res = fmt.Sprintf("<< /ColorSpace << /CS0 [/Separation /Ink /DeviceGray %s] >> >>", ref(base))
 	}
 	contents := ref(cont)
 	if fam.Name == "contents-array" {
@@ -363,7 +527,9 @@ func (fam *Family) buildHugeOffsets(n int) []byte {
 		{20, 2, 4, 0}, {21, 2, 4, uint64(maxI)}, {22, 2, 1<<24 - 1, 0}, {23, 2, uint64(maxI), uint64(maxI)}, {24, 2, 24, 0}, {25, 3, 7, 7}}
 	var body bytes.Buffer
 	var index []string
-	be := func(v uint64) { body.Write([]byte{byte(v >> 56), byte(v >> 48), byte(v >> 40), byte(v >> 32), byte(v >> 24), byte(v >> 16), byte(v >> 8), byte(v)}) }
+	be := func(v uint64) {
+		body.Write([]byte{byte(v >> 56), byte(v >> 48), byte(v >> 40), byte(v >> 32), byte(v >> 24), byte(v >> 16), byte(v >> 8), byte(v)})
+	}
 	p := a.pos()
 	ents = append(ents, e{9, 1, uint64(p), 0})
 	for _, x := range ents {
